@@ -136,6 +136,27 @@ func Exact(b []byte) []byte {
 	return c[:len(b):len(b)]
 }
 
+var lent [][]byte
+
+// Lend is Exact for a buffer that is only lent to the library for the duration of one call (a message handed to
+// a receive callback or to Deliver): Reclaim, called when that call has returned, overwrites it, as a transport
+// that reuses its receive buffers would. A layer that keeps a reference instead of a copy then shows up as
+// corrupted output.
+func Lend(b []byte) []byte {
+	c := Exact(b)
+	lent = append(lent, c)
+	return c
+}
+
+func Reclaim() {
+	for _, b := range lent {
+		for i := range b {
+			b[i] = 0xEE
+		}
+	}
+	lent = lent[:0]
+}
+
 func Bytes(r *rand.Rand, n int) []byte {
 	b := make([]byte, n)
 	r.Read(b)
